@@ -263,4 +263,23 @@ PROPS = {
         level_text="Randomised exploration of waiter/notification/cancellation schedules across >=4 sweeps; thousands of scenarios per quick run.",
         level_note="Trusted: wall-clock ordering of harness-side stamps within the stated margins.",
     ),
+    "C18": dict(
+        pkg="c18", level="exploration",
+        tests=[T("TestC18Codec", Q(40000), Q(250000, timeout=900, shards=8)),
+               T("TestC18Comp", Q(1200, timeout=300), Q(6000, timeout=1500, shards=6)),
+               T("TestC18Frame", Q(500, timeout=300), Q(4000, timeout=1500, shards=8))],
+        fuzz=[dict(target="FuzzC18", seconds=180)],
+        rule="TestC18Codec: a message of any API type (all 60+ message types of regatta.v1 / mvcc.v1 / replication.v1 / maintenance.v1, hot-path types favoured) is generated generically over the protobuf descriptors: every oneof arm or none, "
+             "absent vs present optional fields, unknown enum numbers, byte fields at varint length boundaries (127/128, 16383/16384, 70000), nested messages to depth 4, maps; encoded with the registered gRPC codec, decoded into a fresh object "
+             "(proto.Equal with the canonically decoded original, bytes also decodable by the canonical implementation), into a pooled SnapshotChunk recycled via ReturnToVTPool and via ResetVT after holding another generated message (the stream readers' pattern), "
+             "and Commands built on recycled pooled objects the way fsm.writeCommand / worker.proposeBatch do. Non-trivial iff a oneof arm is set or a pooled object is involved. TestC18Comp: gzip / snappy / zstd from the gRPC registry, 1-6 payloads "
+             "(empty, literals, zeros/random/text of sizes around 4 KiB / 64 KiB boundaries, up to 1 MiB quick / 8 MiB thorough) round-tripped 3x by 1/4/16 goroutines sharing the pooled (de)compressors, drained with one read-to-EOF like gRPC; non-trivial iff "
+             ">1 worker and >=2 payloads. TestC18Frame: 0-12 messages (1 B .. 1 MiB) -> snapshot file -> snapshot.Writer over a codec-backed chunk pipe with generated read sizes {1,2,3,7,8,9,15..1 MiB} -> snapshot.Reader -> file -> message-wise read; same "
+             "sequence, same boundaries, EOF after the last; non-trivial iff a chunk size < 8 (boundary inside a length prefix) with >=2 messages. Thorough adds native fuzzing (FuzzC18: arbitrary bytes through the codec for every type).",
+        assumptions=["input buffers are not modified after decoding (regatta does not enable gRPC's receive-buffer reuse, aliasing the input is within the codec's contract)",
+                     "compressed readers are drained with a single read-to-EOF as gRPC does", "decoding arbitrary messages into a recycled pooled Command is not done by any regatta code path and is not asserted"],
+        technique="round-trip property-based testing over descriptor-driven generated messages, concurrent compressor round trips, framing round trip with generated chunk boundaries, native fuzzing",
+        level_text="Randomised exploration of message values (all types), payloads and chunkings with exact round-trip oracles.",
+        level_note="Trusted: google.golang.org/protobuf as the reference decoder and proto.Equal as equality.",
+    ),
 }
